@@ -177,6 +177,7 @@ def tnet_from( conn, addr,
                 next( source )
             data		= cpppo.dotdict()
             started		= cpppo.timer()		# When did we start the current attempt at a TNET string?
+            begun		= source.sent		# No symbols of the current TNET string consumed yet
             for mch,sta in engine.run( source=source, data=data ):
                 if sta is not None or source.peek() is not None:
                     continue
@@ -211,6 +212,10 @@ def tnet_from( conn, addr,
                 if eof:
                     break
                 source.chain( msg )
+                # Still between TNET messages?  Ignored symbols may arrive in a later chunk than the end of the last message
+                while ignore and source.sent == begun and source.peek() and source.peek() in ignore:
+                    next( source )
+                    begun	= source.sent
 
             # Terminal state, or EOF, or control.done.  Only yield another TNET message if terminal. 
             duration		= cpppo.timer() - started
